@@ -102,6 +102,16 @@ var (
 	labels      = []string{"fam", "other-fam", ""}
 )
 
+// m2Sources: one representative per class for the second member.
+var m2Sources = []string{
+	"xpkg.upbound.io/acme/provider-c:v1",
+	"other.io/acme/provider-c:v1",
+	"xpkg.upbound.io/evil/provider-c:v1",
+	"acme/provider-c:v1",
+	"xpkg.upbound.io/acme-evil/provider-c:v1",
+	"xpkg.upbound.io/Acme/provider-c:v1",
+}
+
 func memberSources() []string {
 	out := []string{
 		"xpkg.upbound.io/acme/provider-b:v1",      // same registry and org
@@ -244,7 +254,7 @@ func storedRole(s *simkube.Store, name string) *rbacv1.ClusterRole {
 func reconcileScenarios(t *testing.T, rep *report.R) []report.Scenario {
 	var out []report.Scenario
 	srcs := memberSources()
-	rep.Bound("reconcile_alphabet", fmt.Sprintf("allow-list options %d x request options %d (one scenario each) x self {family label y/n, 2 sources, 2 default registries, 3 owned-reference lists, stale roles y/n} x member1 {3 labels x %d sources x 2 owned lists}%s", len(allowOpts), len(reqOpts), len(srcs), map[bool]string{true: " x member2 {absent | 2 labels x sources x 2 owned lists}", false: ""}[report.Thorough()]))
+	rep.Bound("reconcile_alphabet", fmt.Sprintf("allow-list options %d x request options %d (one scenario each) x self {family label y/n, 2 sources, 2 default registries, 3 owned-reference lists, stale roles y/n} x member1 {3 labels x %d sources x 2 owned lists}%s", len(allowOpts), len(reqOpts), len(srcs), map[bool]string{true: " x member2 {absent | 2 labels x 6 sources x 2 owned lists}", false: ""}[report.Thorough()]))
 	for _, ao := range allowOpts {
 		for _, ro := range reqOpts {
 			ao, ro := ao, ro
@@ -281,7 +291,7 @@ func reconcileBody(r *explore.Run, rep *report.R, scenario string, ao allowOpt, 
 	if report.Thorough() && r.Bool("m2.present") {
 		m2 := revision{name: "provider-c-rev1", present: true}
 		m2.family = labels[r.Free(2, "m2.label")]
-		m2.source = srcs[r.Free(len(srcs), "m2.source")]
+		m2.source = m2Sources[r.Free(len(m2Sources), "m2.source")]
 		// Member 2 owns other CRDs than member 1 so that both are observable.
 		if r.Bool("m2.owns") {
 			m2.refs = []xpv1.TypedReference{crdRef("gizmos.b.org"), crdRef("doodads.d.org")}
